@@ -166,6 +166,7 @@ def C19(ctx):
                 "both accessors (component-wise), equality of both spellings and the re-parse fixpoint compared; random "
                 "segment strings with long/Unicode names; non-trivial = accepted input")
     ctx.emit_replay("MC_Names", "MC_Names.pkgpath.%s.cfg" % t, "pkgpath-enum")
+    ctx.emit_replay("MC_Names", "MC_Names.pkgpath-deep.%s.cfg" % t, "pkgpath-deep")
     ctx.emit_replay("MC_Names", "MC_Names.depend.%s.cfg" % t, "depend-enum")
     ctx.exhaustive = True
     ctx.record_validate("pkgpath", q(ctx, 20000, 200000), "Tr_Names", "Tr_Names.cfg", name="pkgpath")
@@ -200,6 +201,8 @@ def C08(ctx):
     ctx.emit_replay("MC_SummaryParse", "MC_SummaryParse.%s.cfg" % t, "parse-faults", timeout=3000)
     ctx.exhaustive = True
     ctx.record_validate("sumparse", q(ctx, 8000, 100000), "Tr_Summary", "Tr_Summary.cfg")
+    # is_completed() against the eleven required variables, after every call of random histories
+    ctx.record_validate("sumhist", q(ctx, 800, 10000), "Tr_Summary", "Tr_Summary.cfg", name="completed")
 
 
 def C09(ctx):
@@ -333,8 +336,9 @@ def C14(ctx):
                 "every command word (18 commands, 7 near-misses) x 12 argument classes as single lines through the list parser "
                 "and the single-line parser; random lists of 0-60 lines with arbitrary bytes validated by TLC, including that "
                 "every kept line parsed alone gives the same entry; non-trivial = list with at least one file entry")
-    ctx.assumptions = ["lines consisting only of blanks and the bytes 0B 0C 0D 85 A0, and arguments whose first byte after the "
-                       "space/tab run is one of those, are not judged ('blank' is ambiguous there)",
+    ctx.assumptions = ["blanks = tab, VT, FF, CR, space (pkg_install's isspace); lines consisting only of blanks and the bytes "
+                       "85 A0, and arguments whose first byte after the blank run is 85 or A0, are not judged (whether those "
+                       "two bytes are blanks is left open by the statement)",
                        "the error kind of a rejected line is not compared"]
     ctx.emit_replay("MC_Plist", "MC_Plist.scan.%s.cfg" % t, "scan-enum")
     ctx.emit_replay("MC_Plist", "MC_Plist.cmds.%s.cfg" % t, "cmds-enum")
